@@ -124,6 +124,11 @@ void sx_main(void)
 		k_sys_mode[KSYS_EVENTFD] = 1;
 		sx_cover("raw.pipe-fallback");
 	}
+	if (cfg == 3) {
+		/* the newer calls disappear at some later call (e.g. a seccomp filter installed mid-run) */
+		k_sys_mode[KSYS_EVENTFD2] = 2;
+		k_sys_mode[KSYS_EVENTFD] = 2;
+	}
 	k_idle_hook = idle;
 	if (sx_opt("hb", 0))
 		sx_hb_enable();
